@@ -255,7 +255,7 @@ class SplineSystem(object):
                 ops.append(['reverse'])
             if pd == 2:
                 ops += [['transpose'], ['flip']]
-            ops += [['translate'], ['rotate'], ['scale'], ['evaluate']]
+            ops += [['translate'], ['rotate'], ['scale'], ['evaluate'], ['evaluate_partial_then_full']]
         ops.append(['become_deepcopy'])
         return ops
 
@@ -306,6 +306,7 @@ class SplineSystem(object):
             elif k == 'ctrlpts':
                 pts, _ = self._net(obj, op[1])
                 obj.ctrlpts = pts
+                _scribble(pts)
             elif k == 'set_ctrlpts':
                 pts, sizes = self._net(obj, op[1])
                 if self.rational:
@@ -315,10 +316,13 @@ class SplineSystem(object):
                     obj.set_ctrlpts(pts)
                 else:
                     obj.set_ctrlpts(pts, *sizes)
+                _scribble(pts)
             elif k == 'ctrlptsw':
                 pts, sizes = self._net(obj, op[1])
                 w = A.make_weights(sizes, 'coded')
-                obj.ctrlptsw = [[c * wi for c in p] + [wi] for p, wi in zip(pts, w)]
+                arg = [[c * wi for c in p] + [wi] for p, wi in zip(pts, w)]
+                obj.ctrlptsw = arg
+                _scribble(arg)
             elif k == 'ctrlpts2d':
                 pts, sizes = self._net(obj, op[1])
                 if self.rational:
@@ -326,7 +330,9 @@ class SplineSystem(object):
                 obj.ctrlpts2d = [[pts[v + sizes[1] * u] for v in range(sizes[1])] for u in range(sizes[0])]
             elif k == 'weights':
                 sizes = [obj.ctrlpts_size] if pd == 1 else list(obj.cpsize)
-                obj.weights = A.make_weights(sizes, 'spike' if op[1] == 0 else 'seeded', 3)
+                arg = A.make_weights(sizes, 'spike' if op[1] == 0 else 'seeded', 3)
+                obj.weights = arg
+                _scribble(arg)
             elif k == 'sample_size':
                 obj.sample_size = op[1]
             elif k == 'delta':
@@ -358,6 +364,21 @@ class SplineSystem(object):
             elif k == 'scale':
                 operations.scale(obj, 2.5, inplace=True)
             elif k == 'evaluate':
+                obj.evaluate()
+            elif k == 'evaluate_partial_then_full':
+                # partial evaluation is documented to load evalpts with a segment; a following evaluate() without
+                # arguments is the documented way to get the whole shape back
+                kvs = [obj.knotvector] if pd == 1 else list(obj.knotvector)
+                degs = [obj.degree] if pd == 1 else list(obj.degree)
+                lo = [kv[p] for kv, p in zip(kvs, degs)]
+                hi = [kv[-(p + 1)] for kv, p in zip(kvs, degs)]
+                mid = [(a + b) / 2.0 for a, b in zip(lo, hi)]
+                if pd == 1:
+                    obj.evaluate(start=lo[0], stop=mid[0])
+                elif pd == 2:
+                    obj.evaluate(start_u=lo[0], stop_u=mid[0], start_v=mid[1], stop_v=hi[1])
+                else:
+                    obj.evaluate(start_u=lo[0], stop_u=mid[0], start_v=mid[1], stop_v=hi[1], start_w=lo[2], stop_w=mid[2])
                 obj.evaluate()
             elif k == 'become_deepcopy':
                 _become_copy(obj)
@@ -432,6 +453,19 @@ def _safe_read(obj, r):
         return read(obj, r)
     except Exception as e:
         return 'EXC:' + type(e).__name__
+
+
+def _scribble(arg):
+    """the caller owns the lists it passed to a setter: overwrite them in place after the call (an object that kept a
+    reference instead of its own copy now shows it)"""
+    for i in range(len(arg)):
+        if isinstance(arg[i], list):
+            for j in range(len(arg[i])):
+                arg[i][j] = 7.25 + j
+        else:
+            arg[i] = 7.25 + i
+    if len(arg) > 1:
+        arg.pop()
 
 
 def _become_copy(obj):
